@@ -100,7 +100,7 @@ theorem inv_work_urd (c : Cfg) (ar aq : Nat) (s : S) (h : Inv c ar aq s) (hrun :
     · rw [if_pos hd]
       have e : (processDone s || s.setupRetry) = true := by simp [processDone, hur1]
       rw [if_pos e]
-      apply finish_inv c ar aq s h hrun (by intro hh; rw [hp] at hh; cases hh) (by intro hh; rw [hp] at hh; cases hh)
+      apply finish_inv c ar aq s h hrun (by rw [hp]; decide) (by intro hh; rw [hp] at hh; cases hh)
       intro h1 _; rw [hur1] at h1; cases h1
     · rw [if_neg hd]
       simp only [Bool.not_eq_true] at hd
@@ -112,7 +112,7 @@ theorem inv_work_urd (c : Cfg) (ar aq : Nat) (s : S) (h : Inv c ar aq s) (hrun :
   -- the state once the worker moves on to the trailers
   have toTrailers : ∀ s' : S, s'.phase = .UpRecvTrailer → Base c ar aq s' → s'.running = true → s'.cleaned = false → K3 s' → K6 s' →
       s'.procDone = false → s'.setupRetry = false → s'.direct = false → s'.pass ≤ 1 → s'.upReset = false →
-      (liveCount s'.streams = 0 ∨ (s'.urr = true ∧ respHasMore s'.resp = true)) →
+      (liveCount s'.streams = 0 ∨ (s'.urr = true ∧ respHasMore s'.resp = true ∧ s'.rs.isSome = true)) →
       ((s'.perTry = false ∧ s'.global = false) ∨ s'.urr = true) → s'.resp = some r →
       s'.respStarted = true → r.hasTrailers = true → K24 c s' → K25 c s' → K28 s' → Inv c ar aq s' := by
     intro s' a1 a2 a3 a4 a5 a6 a7 a8 a9 a10 a11 a12 a13 a14 a15 a16 a17 a18 a19
@@ -130,7 +130,7 @@ theorem inv_work_urd (c : Cfg) (ar aq : Nat) (s : S) (h : Inv c ar aq s) (hrun :
     by_cases hdr : s.downReset = true
     · have e : (processDone s || s.setupRetry) = true := by simp [processDone, hdr]
       rw [if_pos e]
-      apply finish_inv c ar aq s h hrun (by intro hh; rw [hp] at hh; cases hh) (by intro hh; rw [hp] at hh; cases hh)
+      apply finish_inv c ar aq s h hrun (by rw [hp]; decide) (by intro hh; rw [hp] at hh; cases hh)
       intro _ h2; rw [hdr] at h2; cases h2
     · simp only [Bool.not_eq_true] at hdr
       have e : (processDone s || s.setupRetry) = false := by simp [processDone, hpd, hdr, hur, hsr]
@@ -208,13 +208,13 @@ theorem inv_work_urt (c : Cfg) (ar aq : Nat) (s : S) (h : Inv c ar aq s) (hrun :
   by_cases hur1 : s.upReset = true
   · have e : (processDone s || s.setupRetry) = true := by simp [processDone, hur1]
     rw [if_pos e]
-    apply finish_inv c ar aq s h hrun (by intro hh; rw [hp] at hh; cases hh) (by intro hh; rw [hp] at hh; cases hh)
+    apply finish_inv c ar aq s h hrun (by rw [hp]; decide) (by intro hh; rw [hp] at hh; cases hh)
     intro h1 _; rw [hur1] at h1; cases h1
   have hur : s.upReset = false := by simpa using hur1
   by_cases hdr : s.downReset = true
   · have e : (processDone s || s.setupRetry) = true := by simp [processDone, hdr]
     rw [if_pos e]
-    apply finish_inv c ar aq s h hrun (by intro hh; rw [hp] at hh; cases hh) (by intro hh; rw [hp] at hh; cases hh)
+    apply finish_inv c ar aq s h hrun (by rw [hp]; decide) (by intro hh; rw [hp] at hh; cases hh)
     intro _ h2; rw [hdr] at h2; cases h2
   · simp only [Bool.not_eq_true] at hdr
     have e : (processDone s || s.setupRetry) = false := by simp [processDone, hpd, hdr, hur, hsr]
